@@ -300,7 +300,8 @@ PROPS = {
         lemmas=["HoldAll", "SumCong.Eta", "SumCong.Gm", "SumCong.Gp", "SumIV.concat"],
         trusted=TB + ["TB-z3", "TB-ifml"],
         assumed=["existence of c-representations for strongly consistent bases"],
-        explanation="Engine P proves c_vec2ocf (rank = sum of impacts of falsified conditionals, keys 1..n) and the constraint systems "
+        explanation="Engine P proves c_vec2ocf (rank = sum of impacts of falsified conditionals, keys 1..n), rank_world of the c-representation "
+        "object (computed, forced or cached: always that sum; the cache keeps its meaning) and the constraint systems "
         "the impact vectors are solutions of (c-inference: minima_encoding, encoding, translate; c-revision: symbolize_minima_expression, "
         "encoding, translate_to_csp); construction, Pareto-minimality and front enumeration are compared with brute force (bounded).",
     ),
